@@ -49,3 +49,24 @@ int count_set(const unsigned char *table)
     }
   return found;
 }
+
+// R-C01-7: the catalogue slot of a volume is a function of its letter
+#include <vector>
+struct VolLoc { int cat; unsigned long s, e; char v; VolLoc(int c, unsigned long a, unsigned long b, char l) : cat(c), s(a), e(b), v(l) {} };
+std::vector<VolLoc> find_volumes_good(const unsigned char *table, unsigned spt)
+{
+  std::vector<VolLoc> locations_;
+  static const char labels[] = "ABCDEFGH";
+  char label;
+  unsigned offset = 8;
+  for (int i = 0; (label = labels[i]) != '\0'; ++i)
+    {
+      const unsigned track = table[offset];
+      offset += 2u;
+      if (track == 0)
+	continue;
+      unsigned long start = track * spt;
+      locations_.emplace_back(i * 2, start, start, label);
+    }
+  return locations_;
+}
